@@ -4,6 +4,8 @@ usage: seed_matrix.py [tier] [seed-id ...]
 """
 import json, os, re, shutil, subprocess, sys, tempfile
 from concurrent.futures import ThreadPoolExecutor
+import threading
+WT_LOCK = threading.Lock()
 
 VERIF = os.path.dirname(os.path.dirname(os.path.abspath(__file__)))
 
@@ -16,7 +18,11 @@ def run(seed, tier):
     wt = tempfile.mkdtemp(prefix="sm-", dir="/tmp"); os.rmdir(wt)
     evd = tempfile.mkdtemp(prefix="smev-", dir="/tmp")
     res = {"seed": seed, "fires": {}, "errors": {}}
-    rc, out = sh("git -C /repo worktree add -q --detach %s HEAD" % wt)
+    with WT_LOCK:
+        rc, out = sh("git -C /repo worktree add -q --detach %s HEAD" % wt)
+    if rc:
+        res["apply_failed"] = "worktree add failed: " + out[-200:]
+        return res
     try:
         rc, out = sh("git apply --whitespace=nowarn %s/patch.diff || git apply --3way --whitespace=nowarn %s/patch.diff" % (sd, sd), cwd=wt)
         if rc:
@@ -40,7 +46,8 @@ def run(seed, tier):
             if m:
                 res["fires"].setdefault(m.group(3).split(".")[0], []).append("%s %s: %s" % (m.group(3), m.group(2), m.group(4)[:160]))
     finally:
-        sh("git -C /repo worktree remove --force %s" % wt)
+        with WT_LOCK:
+            sh("git -C /repo worktree remove --force %s" % wt)
         shutil.rmtree(wt, ignore_errors=True); shutil.rmtree(evd, ignore_errors=True)
     return res
 
@@ -56,7 +63,7 @@ if __name__ == "__main__":
         anyf = bool(r["fires"])
         caught += anyf
         rules = sorted({x.split(" ")[0] for v in r["fires"].values() for x in v})
-        print("%-8s %-10s %s %s" % (r["seed"], "CAUGHT" if own else ("caught-by-other" if anyf else "MISSED"),
+        print("%-8s %-10s %s %s" % (r["seed"], "APPLY-FAILED" if r.get("apply_failed") else ("CAUGHT" if own else ("caught-by-other" if anyf else "MISSED")),
                                    ",".join(rules)[:110], ("ERR:" + str(r["errors"])) if r["errors"] else ""))
     print("%d/%d caught" % (caught, len(results)))
     if len(sys.argv) <= 2:
